@@ -249,3 +249,18 @@ Module MapCalls.
                            holds (m_store st) t outs.
   Proof. exact example_generation_kept. Qed.
 End MapCalls.
+
+(* ================================================================== capstone: the boolean statement *)
+From Verif Require Corr.C13Pipe Corr.Run_C13 Proofs.C13PipeCap.
+
+(* CAPSTONE, pipeline(...) / run / func cases: the executable statement that judges the implementation
+   (Run_C13.spec_ok, written from the property text) holds of the model's own observation for EVERY pipeline call
+   case -- every pipeline (well-formed or not), output, keywords, flag, entry point, failing invocation and
+   exception -- provided the function names contain no '(' (the call log renders an invocation as name(...)).
+   There is no known region left.  It combines error_surfaces, call_failure_once (function level),
+   reproduce_same and the note / snapshot shape. *)
+Theorem C13_capstone_pipe : forall p o kw full entry tgt e,
+  C13PipeCap.names_ok p = true ->
+  Run_C13.spec_ok (Run_C13.CPipe p o kw full entry tgt e) (Run_C13.run (Run_C13.CPipe p o kw full entry tgt e)) = true.
+Proof. intros p o kw full entry tgt e H. exact (C13PipeCap.pipe_capstone p o kw full tgt e H). Qed.
+Print Assumptions C13_capstone_pipe.
